@@ -249,15 +249,52 @@ def run_unit(unit, verify_args, tier, seed, prefixes=None, pre=None):
         if p.returncode != 0:
             res["tool_errors"].append(f"pre-step {pre} failed: {p.stdout[-1500:]} {p.stderr[-500:]}")
             return res
+    pulls = []
+    for round_ in range(4):
+        r_ = _run_unit_once(unit, verify_args, tier, seed, prefixes, res, pulls)
+        if r_ is None:
+            return res
+        more = [x for x in derive_pulls(r_) if x not in pulls]
+        if not more or round_ == 3:
+            return res
+        # R25: retry with the missing functions pulled in (without contracts)
+        pulls = pulls + more
+        keep = {k: res[k] for k in ("unit",)}
+        res.clear()
+        res.update({"unit": unit, "failures": [], "tool_errors": [], "trusted": [], "rewrites": [], "functions": [],
+                    "notdecided": [], "bounded": []})
+    return res
+
+
+def derive_pulls(diags):
+    """missing-function compile errors -> [(type name or None, fn name)]"""
+    out = []
+    for d in diags:
+        if d.get("level") != "error":
+            continue
+        msg = d.get("message", "")
+        m = re.search(r"no (?:method|function or associated item|associated function or constant|associated item) named `(\w+)` found for (?:struct|enum|type|union|reference) `&?(?:mut )?([^`]+)`", msg)
+        if m:
+            ty = re.sub(r"<.*", "", m.group(2)).split("::")[-1].strip()
+            out.append((ty, m.group(1)))
+            continue
+        m = re.search(r"cannot find function `(\w+)` in (?:this scope|module|crate)", msg)
+        if m:
+            out.append((None, m.group(1)))
+    return out
+
+
+def _run_unit_once(unit, verify_args, tier, seed, prefixes, res, pulls):
+    """one extraction + verification round; returns the diagnostics of the main run (None when nothing was run)"""
     try:
-        rs, meta = extract.build(unit, BUILD, vacuity=False)
-        rs_vac, meta_vac = extract.build(unit, BUILD, vacuity=True)
+        rs, meta = extract.build(unit, BUILD, vacuity=False, pulls=pulls)
+        rs_vac, meta_vac = extract.build(unit, BUILD, vacuity=True, pulls=pulls)
     except extract.AnchorLost as ex:
         res["tool_errors"].append(f"anchor lost: {ex}")
-        return res
+        return None
     except extract.Unsupported as ex:
         res["tool_errors"].append(f"unsupported: {ex}")
-        return res
+        return None
     res["meta"] = meta
     res["rewrites"] = meta["rewrites"]
     res["functions"] = meta["functions"]
@@ -273,7 +310,7 @@ def run_unit(unit, verify_args, tier, seed, prefixes=None, pre=None):
             outv, diagsv, rawv, dtv, cmdv = f2.result()
         except ToolError as e:
             res["tool_errors"].append(str(e))
-            return res
+            return None
     res["cmd"] = cmd
     res["wall_s"] = dt
     res["vac_wall_s"] = dtv
@@ -297,4 +334,4 @@ def run_unit(unit, verify_args, tier, seed, prefixes=None, pre=None):
     except ToolError as e:
         res["tool_errors"].append(str(e))
     res["trusted"] = meta["trusted"] + assumption_scan(rs)
-    return res
+    return diags
